@@ -1833,10 +1833,14 @@ def evaluate__round(self: XPathFunction, context: ta.ContextType = None) \
 
     precision: int = self.get_argument(context, index=1, default=0, cls=int)
     try:
-        if precision < 0:
-            return type(arg)(round(arg, precision))  # type: ignore[call-overload, arg-type]
-
         number = decimal.Decimal(arg)
+        if precision < 0:
+            if -precision > number.adjusted() + 1:
+                return type(arg)(0)  # type: ignore[call-overload, arg-type]
+            return type(arg)(round(arg, precision))  # type: ignore[call-overload, arg-type]
+        elif precision >= -number.as_tuple().exponent:  # type: ignore[operator]
+            return arg  # no fractional digits to round
+
         exponent = decimal.Decimal('1') / 10 ** precision
         if number > 0:
             return type(arg)(number.quantize(exponent, rounding='ROUND_HALF_UP'))
